@@ -154,6 +154,28 @@ Theorem C33_handler_202_iff_fetching : forall h,
 Proof. exact Proof.C33.handler_202. Qed.
 Print Assumptions C33_handler_202_iff_fetching.
 
+(* with origins that answer from the handler: before the put, every dependency was — during one of
+   the recorded requests — in the cache of an origin that uploaded it to the remote cluster and had
+   the upload accepted; everything that origin answered before was "still fetching" (202) *)
+Theorem C33_order_uploaded : forall e pre r post,
+  Proof.C33.handler_env e -> trace e = pre ++ EPut r :: post ->
+  forall de, In de (e_deps e) ->
+  exists k x hs n h,
+    nth_error (d_origins de) (N.to_nat k) = Some x /\ o_script x = served hs /\
+    nth_error hs n = Some h /\ uploaded h = true /\
+    (forall j h', (j < n)%nat -> nth_error hs j = Some h' -> handler h' = 202) /\
+    In (ERepl (d_id de) k (RCode 200)) pre.
+Proof. exact Proof.C33.order_uploaded. Qed.
+Print Assumptions C33_order_uploaded.
+
+(* finite answer scripts lose no generality: on an origin that answers its i-th request with f i
+   (any function, no end of script) the poll loop does what it does on the first budget + 1
+   answers; in particular the "origin gone" completion of a script is never reached then *)
+Theorem C33_scripts_are_general : forall d o f i bud,
+  Proof.C33.poll_fn d o f i bud = poll_origin d o (map f (seq i (S bud))) (N.of_nat bud).
+Proof. exact Proof.C33.poll_fn_script. Qed.
+Print Assumptions C33_scripts_are_general.
+
 (* ---- executable form used on observed traces *)
 Theorem C33_check_sound : forall e, C33_check e (trace e) (verdict e) = true.
 Proof. exact Proof.C33.check_sound. Qed.
@@ -204,6 +226,18 @@ Example C33_nonvacuous_4xx_final :
   exec (mkenv (RCode 404) (RCode 200)
           [mkdep 1 true [mkorigin [RCode 404] 5; mkorigin [RCode 200] 5]] (RCode 200))
   = ([EHas (RCode 404); EOrigin (RCode 200); EResolve 1 true; ERepl 1 0 (RCode 404)], Err).
+Proof. vm_compute. reflexivity. Qed.
+
+(* origins that run the handler: fetching, fetching, then cached and uploaded *)
+Example C33_nonvacuous_handler :
+  exec (mkenv (RCode 404) (RCode 200)
+          [mkdep 1 true [mkorigin (served [mkh CAbsent FStarted UOk; mkh CAbsent FPending UOk; mkh CPresent FStarted UOk]) 5];
+           mkdep 2 true [mkorigin (served [mkh CPresent FStarted UFail]) 5; mkorigin (served [mkh CPresent FStarted UOk]) 5]]
+          (RCode 200))
+  = ([EHas (RCode 404); EOrigin (RCode 200);
+      EResolve 1 true; ERepl 1 0 (RCode 202); ERepl 1 0 (RCode 202); ERepl 1 0 (RCode 200);
+      EResolve 2 true; ERepl 2 0 (RCode 500); ERepl 2 1 (RCode 200);
+      EPut (RCode 200)], Ok).
 Proof. vm_compute. reflexivity. Qed.
 
 Example C33_nonvacuous_present :
